@@ -572,6 +572,11 @@ def next_frame(rng, d, S, prev, cstep, bstep):
         while not any(t):
             t = [rng.randint(-4 * S, 4 * S) for _ in range(d)]
         b = [[r[0] + t[k], r[1] + t[k]] for k, r in enumerate(b0)]
+    elif bstep == "nudged":          # the origin creeps by one or two units (a box far from the origin: relative change ~1e-6)
+        t = [0] * d
+        while not any(t):
+            t = [rng.randint(-2, 2) for _ in range(d)]
+        b = [[r[0] + t[k], r[1] + t[k]] for k, r in enumerate(b0)]
     else:
         b = bounding_box(H, [rng.randint(-3 * S, 3 * S) for _ in range(d)])
     return H, b
@@ -595,12 +600,20 @@ def gen_blur(rng, lib, ncalls, trace, ctx, chk=None):
             d = rng.choice([2, 2, 3])
             F = rng.choice([1, 2, 2, 3])
             steps = [(rng.choice(CELL_STEPS + ("new", "new")), rng.choice(BOUNDS_STEPS + ("box", "box"))) for _ in range(F - 1)]
+            if call % 5 == 2:
+                # a box far from the origin whose bounds creep from frame to frame: nearly equal, never equal (a grid reused
+                # under a TOLERANCE on the bounds would be the grid of another frame)
+                F = 3
+                steps = [("same", "nudged"), (rng.choice(("same", "tilt")), "nudged")]
         S = 10 if d == 2 else 2
         ng = [rng.randint(2, 7 if d == 2 else 5) for _ in range(d)]
         if rng.random() < 0.15:
             ng[rng.randrange(d)] = 1
         N = rng.randint(4, 14)
         H, b, _ = rand_cell(rng, d, S, 3, 8)
+        if any(bs_ == "nudged" for _, bs_ in steps):
+            far = [rng.choice([-1, 1]) * rng.randint(200000, 400000) for _ in range(d)]
+            b = [[r[0] + far[k], r[1] + far[k]] for k, r in enumerate(b)]
         frames = [(H, b)]
         for cstep, bstep in steps:
             frames.append(next_frame(rng, d, S, frames[-1], cstep, bstep))
